@@ -52,6 +52,26 @@ PICKS = [
  ("common.PostSlotTransition", "slot != benv.Slot", "block.slot == state.slot"),
  ("common.ProcessSlot", "latestHeader.StateRoot == (Root{})", "the previous state root is filled into the latest header when it is still zeroed"),
  ("common.BeaconBlockEnvelope.VerifySignatureVersioned", "b.ProposerIndex != proposer", "the signature is checked against the key of block.proposer_index"),
+ # ---- proto-array query functions: closed coverage (every refusing / skipping comparison is reviewed; see cmpClosed)
+ ("proto.ProtoArray.Search", "node.Ref.Root == node.ParentRoot", "only nodes that carry a block are search results (empty-slot nodes repeat their block's root)"),
+ ("proto.ProtoArray.Search", "node.BestChild != NONE", "head search: a node without children is a head"),
+ ("proto.ProtoArray.Search", "desc.Ref.Root != node.Ref.Root", "head search: a node whose descendants are only its own empty slots is still a head"),
+ ("proto.ProtoArray.Search", "node.ParentRoot != *parentRoot", "search by parent root keeps the children of that root only"),
+ ("proto.ProtoArray.Search", "node.Ref.Slot != *slot", "search by slot keeps the blocks of that slot only"),
+ ("proto.ProtoArray.CanonAtSlot", "anchorSlot == slot", "the anchor's own slot is answered by the anchor"),
+ ("proto.ProtoArray.CanonAtSlot", "node.ParentRoot != anchor", "pre-block query at the anchor: the anchor node must be the empty (pre-block) node"),
+ ("proto.ProtoArray.CanonAtSlot", "index >= pr.indexOffset", "the walk stays inside the live array"),
+ ("proto.ProtoArray.CanonAtSlot", "index != NONE", "the walk ends at a node without transition parent"),
+ ("proto.ProtoArray.CanonAtSlot", "node.ParentRoot != node.Ref.Root", "pre-block query: nodes that carry a block are stepped over"),
+ ("proto.ProtoArray.CanonAtSlot", "node.Ref.Root == node.ParentRoot", "with-block query: an empty-slot node at the slot means there is no block"),
+ ("proto.ProtoArray.CanonicalChain", "index != NONE", "the chain ends at a node without transition parent"),
+ ("proto.ProtoArray.CanonicalChain", "index >= pr.indexOffset", "the chain stays inside the live array"),
+ ("proto.ProtoArray.ClosestToSlot", "anchorSlot == slot", "the anchor's own slot is answered by the anchor"),
+ ("proto.ProtoArray.inSubtree", "anchorIndex == lookupIndex", "a node is in its own subtree"),
+ ("proto.ProtoArray.inSubtree", "anchorNode.BestDescendant == lookupIndex", "the anchor's best descendant is below it"),
+ ("proto.ProtoArray.inSubtree", "anchorNode.BestDescendant == lookupNode.BestDescendant", "same relative head: same chain"),
+ ("proto.ProtoArray.inSubtree", "i != NONE", "the parent walk ends at a node without transition parent"),
+ ("proto.ProtoArray.inSubtree", "tmp.BestDescendant == anchorNode.BestDescendant", "an ancestor that shares the anchor's best descendant lies between the anchor and its head"),
  ("phase0.IsActive", "activationEpoch > epoch", "is_active_validator: activation_epoch <= epoch (refuse >)"),
  ("phase0.IsActive", "epoch >= exitEpoch", "is_active_validator: epoch < exit_epoch (refuse >=)"),
  ("common.FlatValidator.IsActive", "v.ActivationEpoch <= epoch", "is_active_validator: activation_epoch <= epoch"),
@@ -263,6 +283,8 @@ TYPED = [
  ("phase0.ProcessAttestation", "Checkpoint", "!=", 2, "data.source == the justified checkpoint of the target's epoch (whole checkpoint)"),
 ]
 
+CLOSED = ["proto.ProtoArray.Search", "proto.ProtoArray.CanonAtSlot", "proto.ProtoArray.CanonicalChain", "proto.ProtoArray.ClosestToSlot", "proto.ProtoArray.inSubtree"]
+
 def dump():
     out = subprocess.check_output(["/verif/bin/zrntlint", "cmps"]).decode()
     rows = []
@@ -349,6 +371,12 @@ def main():
             gq(fn), ", ".join(gq(r) for r in regs), gq(op), k, ", ".join(str(c) for c in coefs), count, gq(absform), gq(resform), gq(raform), gq(ROP), gq(mkform), gq(spec)))
     for fn, typ, op, count, spec in TYPED:
         out.append('\t{fn: %s, typ: %s, op: %s, count: %d, spec: %s},' % (gq(fn), gq(typ), gq(op), count, gq(spec)))
+    out.append("}")
+    out.append("")
+    out.append("// cmpClosed: functions whose refusing / skipping comparisons are ALL reviewed: one that no entry accounts for is reported.")
+    out.append("var cmpClosed = map[string]bool{")
+    for fn in CLOSED:
+        out.append("\t%s: true," % gq(fn))
     out.append("}")
     open("/verif/zrntlint/cmp_table.go", "w").write("\n".join(out) + "\n")
     print("entries:", len(PICKS) + len(TYPED) - missing, "missing:", missing)
